@@ -583,16 +583,18 @@ func extractOf(v ssa.Value) (*ssa.Call, int) {
 // resultOf reports whether every origin of v is result #idx of call.
 func isResultOf(v ssa.Value, call *ssa.Call, idx int) bool {
 	os := origins(v)
-	if len(os) == 0 {
-		return false
-	}
+	n := 0
 	for _, o := range os {
+		if isNilConst(o) {
+			continue // the error path of an inlined helper hands out a nil value
+		}
+		n++
 		c, i := extractOf(o)
 		if c != call || i != idx {
 			return false
 		}
 	}
-	return true
+	return n > 0
 }
 
 // someOriginIsResultOf: at least one origin of v is result #idx of call.
